@@ -244,7 +244,15 @@ func (p *Pool) scope() {
 	}
 }
 
+// PoolPoints (opt-in per harness): make Pool.Get and the moment after Pool.Put scheduling points, so that "an object is
+// handed back to the pool while its memory is still in use" becomes visible as an interleaving (the other thread gets the
+// object - the shim pool is LIFO - before the first one has finished with it).
+var PoolPoints bool
+
 func (p *Pool) Get() any {
+	if PoolPoints && S.Active {
+		Point()
+	}
 	p.scope()
 	if n := len(p.items); n > 0 {
 		x := p.items[n-1]
@@ -256,7 +264,13 @@ func (p *Pool) Get() any {
 	}
 	return nil
 }
-func (p *Pool) Put(x any) { p.scope(); p.items = append(p.items, x) }
+func (p *Pool) Put(x any) {
+	p.scope()
+	p.items = append(p.items, x)
+	if PoolPoints && S.Active {
+		Point()
+	}
+}
 
 // Map wraps the real sync.Map; every operation is a scheduling point.
 type Map struct{ m rsync.Map }
